@@ -142,15 +142,19 @@ fn may_match_ellipsis_impl<'p, 't: 'p, D: Doc + 't>(
     return Some(ControlFlow::Continue);
   }
   loop {
+    // try the goal on a scratch copy: a sibling that fails after binding
+    // a meta variable is skipped by the ellipsis and must leave no trace
+    let mut attempt = agg.clone();
     if matches!(
       match_node_impl(
         goal_children.peek().unwrap(),
         cand_children.peek().unwrap(),
-        agg,
+        &mut attempt,
         strictness,
       ),
       MatchOneNode::MatchedBoth
     ) {
+      *agg = attempt;
       // found match non Ellipsis,
       match_ellipsis(
         agg,
